@@ -13,13 +13,15 @@ K_RETRY = "stale-shallow-hit:transient-error@record_call_node:final-commit"
 K_CRASH = "stale-shallow-hit:crash@record_call_node:after-CallNode-commit"
 K_IMPORT = "stale-shallow-hit:imported-call-node:no-subtree-rows"
 K_CSE = "stale-shallow-hit:cse-replayed-child:subtree-tasks-not-inherited"
+K_MIXED = "stale-shallow-hit:transient-error@record_call_node:final-commit+cse-replay-of-that-call-node"
 
 
 class Check(RecordingCheck):
     id = "C03"
     module = "Props.C03"
     theorems = ["C03_shallow_hit_sound_fixed", "C03_invariant_fixed", "C03_rows_all_or_nothing_partial",
-                "C03_refuted_retry", "C03_refuted_crash", "C03_refuted_import", "C03_refuted_cse", "C03_nonvacuous"]
+                "C03_refuted_retry", "C03_refuted_crash", "C03_refuted_import", "C03_refuted_cse",
+                "C03_shallow_hit_sound_mixed_partial", "C03_mixed_old_witnesses_closed", "C03_refuted_mixed", "C03_nonvacuous"]
     rule = ("operation scripts: random call trees (0-2 children, recorded or not, 0-3 arguments over a 6-value pool), "
             "re-recordings, imports, commit fates (none / one or several OperationalErrors / crash) at random commit "
             "indices, lookups under the full registry and with one subtree task removed; non-trivial = has a fault or "
@@ -43,6 +45,7 @@ class Check(RecordingCheck):
             n += self.witness_transient_and_crash(work)
             n += self.witness_cse(work)
             n += self.witness_import(work)
+            n += self.witness_mixed(work)
             # 2. search: plain edit histories (no fault), then faults at every commit inside
             #    record_call_node of the workloads followed by an edit
             for name in ("chain", "two_args"):
@@ -109,6 +112,26 @@ class Check(RecordingCheck):
                          f"record_call_node(top): after editing leaf the shallow-cached top replays {o['edited'][1]!r}, "
                          f"a fresh backend gives {o['expected_edited'][1]!r}",
                     {"kind": "e2e", "workload": name, "plan": [FOK] * i + [fate]}))
+        return 2
+
+    def witness_mixed(self, work):
+        """C03_refuted_mixed on the real Scheduler: workload cse, one transient error at the last commit of the
+        record_call_node of a's mid; p's mid is then replayed by CSE from that call node."""
+        name = "cse"
+        db = rl.fresh_db(str(work), "wm.db")
+        _, _, log, s = rl.sched_run(name, rl.LEAF_V1[name], db)
+        rl.close_backend(s.backend)
+        os.unlink(db)
+        finals = [i for i, _, site in log if site == "record_call_node"]
+        i = finals[1]                                        # call nodes are recorded in the order leaf, mid, a, ...
+        base = self.e2e(name, [], work, "wm0")
+        o = self.e2e(name, [FOK] * i + [FFAIL], work, "wm")
+        if o["edited"][0] == "ok" and o["stale_edited"] and not base["stale_edited"]:
+            self.findings.append(Finding(
+                K_MIXED, f"one transient OperationalError at the last commit of record_call_node(mid): mid's CallSubtreeTask rows are lost "
+                         f"(early exit on retry); p's call of mid is replayed by CSE from that call node and inherits no subtree tasks; "
+                         f"after editing leaf the shallow-cached p replays {o['edited'][1]!r}, a fresh backend gives {o['expected_edited'][1]!r}",
+                {"kind": "e2e", "workload": name, "plan": [FOK] * i + [FFAIL]}))
         return 2
 
     def witness_cse(self, work):
